@@ -31,6 +31,8 @@ const (
 type State struct {
 	Term       *terminal.Terminal
 	Out        io.Writer
+	topOut     io.Writer // Out as it was before function calls started capturing it (restored by Reset).
+	outDepth   int       // number of nested function calls currently capturing Out.
 	LogOut     io.Writer
 	macroState *object.Environment
 	env        *object.Environment
@@ -87,6 +89,11 @@ func NewBlankState() *State {
 func (s *State) Reset() {
 	s.env = s.rootEnv
 	s.depth = 0
+	if s.outDepth > 0 {
+		// the panic happened inside function call(s) capturing the output: back to the real writer.
+		s.Out = s.topOut
+		s.outDepth = 0
+	}
 }
 
 // RegisterTrie sets up the Trie to record all top level ids and functions.
